@@ -26,9 +26,12 @@ type c02Transcript struct {
 	wire   []byte   // recorded protected bytes of the faulted direction
 	frames [][]byte // wire split into frames (header+body)
 	other  []byte   // a protected frame of the opposite direction (for splices)
-	pre    []byte   // bytes the receiver must consume before the faulted leg (BA: nothing; see mkRecv)
-	dir    string
-	long   bool
+	// the first protected frames of the opposite direction - what the RECEIVER itself
+	// sent - for reflection faults: its own frame k handed back at any position
+	otherFrames [][]byte
+	pre         []byte // bytes the receiver must consume before the faulted leg (BA: nothing; see mkRecv)
+	dir         string
+	long        bool
 }
 
 var c02Script = [][][]byte{
@@ -110,6 +113,16 @@ func c02Record(dir string, long bool) (*c02Transcript, func() *stream.Stream, er
 			return nil, nil, err
 		}
 		t.other = append([]byte(nil), bb.W...)
+		for i := 1; i < 7; i++ {
+			if err := b.SendMessage(ctx, []byte(fmt.Sprintf("pong-%d-from-the-receiver", i))); err != nil {
+				return nil, nil, err
+			}
+		}
+		if fr, _ := refcodec.ParseFrames(bb.W); len(fr) == 7 {
+			for _, f := range fr {
+				t.otherFrames = append(t.otherFrames, f.Bytes())
+			}
+		}
 		var secWire []byte
 		if dir == "AB+secret" {
 			// before the faulted leg the (already encrypting) stream carries a secret
@@ -155,6 +168,16 @@ func c02Record(dir string, long bool) (*c02Transcript, func() *stream.Stream, er
 		return nil, nil, err
 	}
 	t.msgs, t.wire = msgs, append([]byte(nil), bb.W...)
+	for i := 1; i < 7; i++ {
+		if err := a.SendMessage(ctx, []byte(fmt.Sprintf("request-%d-from-the-receiver", i))); err != nil {
+			return nil, nil, err
+		}
+	}
+	if fr, _ := refcodec.ParseFrames(ab.W); len(fr) == 7 {
+		for _, f := range fr {
+			t.otherFrames = append(t.otherFrames, f.Bytes())
+		}
+	}
 	// The receiver must be a stream that has sent "request" with A's IV. A
 	// fresh stream would pick a new IV, which is fine for receiving (the
 	// receive direction is keyed by B's IV on the wire), so rebuild: new
@@ -356,6 +379,18 @@ func c02Ops() []c02Op {
 			}
 			return ins(fs, at, refcodec.MkFrame(end, b))
 		}},
+		{"reflect", func(t *c02Transcript) int { return (len(t.frames) + 1) * len(t.otherFrames) }, func(t *c02Transcript, fs [][]byte, c int) [][]byte {
+			// the receiver's own k-th protected frame inserted before position `at`
+			// (at == k is the reflection whose counter lines up)
+			if len(t.otherFrames) == 0 {
+				return nil
+			}
+			at, k := c/len(t.otherFrames), c%len(t.otherFrames)
+			if at > len(fs) {
+				return nil
+			}
+			return ins(fs, at, t.otherFrames[k])
+		}},
 		{"splice", func(t *c02Transcript) int { return len(t.frames) + 1 }, func(t *c02Transcript, fs [][]byte, at int) [][]byte {
 			if at > len(fs) {
 				return nil
@@ -368,7 +403,7 @@ func c02Ops() []c02Op {
 func C02Plan() *vlib.Plan {
 	p := &vlib.Plan{
 		Property: "C02", Level: "fault_enumeration",
-		Rule:   "E-FAULT: recorded AES-GCM transcripts (3-frame, empty, 2-frame, 1-frame message; thorough adds a 5000-byte multi-frame message) in both directions (and once after a PutSecret/GetSecret exchange on the already encrypting stream) x every single fault: each bit of every header/IV/ciphertext/tag flipped, truncation at every byte, every frame dropped/duplicated/swapped/replayed later, length fields +-1/+-16, a forged frame (7 lengths x 5 end flags x 2 bodies) and a cross-direction frame inserted at every position; thorough: all ordered pairs of frame-level faults. 3 receive APIs. Non-trivial = the mutated wire differs from the recorded one and was fed to the receiver; case ids are distinct by construction.",
+		Rule:   "E-FAULT: recorded AES-GCM transcripts (3-frame, empty, 2-frame, 1-frame message; thorough adds a 5000-byte multi-frame message) in both directions (and once after a PutSecret/GetSecret exchange on the already encrypting stream) x every single fault: each bit of every header/IV/ciphertext/tag flipped, truncation at every byte, every frame dropped/duplicated/swapped/replayed later, length fields +-1/+-16, a forged frame (7 lengths x 5 end flags x 2 bodies) a cross-direction frame inserted at every position, and each of the receiver's own first 7 protected frames reflected back at every position; thorough: all ordered pairs of frame-level faults. 3 receive APIs. Non-trivial = the mutated wire differs from the recorded one and was fed to the receiver; case ids are distinct by construction.",
 		Assume: []string{"the receiver learns the peer IV from the wire, so a recorded transcript replays deterministically", "Go crypto/aes+cipher (GCM) trusted"},
 	}
 	p.Gen = func(tier string, yield func(vlib.Case)) {
